@@ -1,7 +1,7 @@
 (* C13 correspondence dispatch: one case = (op, s, ints, bytes); ops 0..13 are the varint
    codecs (Model.run_case), the rest the cells added later.  Definitions only. *)
 From ZV.Common Require Import Base Run.
-From ZV.C13 Require Import Model ModelIO ModelReader ModelTypes ModelVersioned ModelWriter.
+From ZV.C13 Require Import Model ModelIO ModelReader ModelTypes ModelVersioned ModelWriter ModelRangeWriter.
 Open Scope N_scope.
 
 Definition run_case2 (op s : N) (ints : list Z) (bytes : list N) : option (list Z) :=
@@ -36,5 +36,7 @@ Definition run_case2 (op s : N) (ints : list Z) (bytes : list N) : option (list 
   (* writer histories: StreamBufferedWriter / ZeroCopyWriter over an inner writer taking `s` bytes per call *)
   | 50 => run_writer false s ints
   | 51 => run_writer true s ints
+  (* RangeWriter history over a cursor whose vector starts as `bytes` *)
+  | 52 => run_range_writer ints bytes
   | _ => run_case op s ints bytes
   end.
